@@ -12,6 +12,9 @@ SPEC = {
         {"name": "csrand", "pkg": PD, "kind": "rapid", "run": "^TestVerifC12Csrand$",
          "quick": {"checks": 1000, "shards": 1, "timeout": 300},
          "thorough": {"checks": 20000, "shards": 4, "timeout": 1500}},
+        {"name": "concurrent-reset", "pkg": PD, "kind": "rapid", "run": "^TestVerifC12ConcurrentReset$",
+         "quick": {"checks": 200, "shards": 1, "timeout": 300},
+         "thorough": {"checks": 2000, "shards": 4, "timeout": 900, "race": True}},
     ],
 }
 
